@@ -122,6 +122,34 @@ def c12(res, tier, seed):
                             g["post_scanner"] = ["sdefine 0 i ext_k %d" % x]
                         groups.append(g)
                         metas.append((txt + "  [ext_k=%d defined at %s level]" % (x, lvl), ast, dict(cond.EXT_ENV, ext_k={"ty": "i", "v": x})))
+    # ranges whose bounds are constants / constant expressions / externals / run-time values: the static check rejects exactly
+    # lo > hi and lo < 0 among constants ((n..n) is a valid inclusive range); the accepted twins must agree on every buffer
+    rvals = [-1, 0, 1, 2, 5] if tier == "quick" else [-2, -1, 0, 1, 2, 3, 5, 9]
+    def bound_variants(v):
+        out = [("lit", I(v)), ("ext", {"t": "ext", "name": "ext_k"})]
+        if v >= 2: out.append(("sum", {"t": "bin", "op": "+", "l": I(v - 2), "r": I(2)}))
+        out.append(("run", {"t": "bin", "op": "+", "l": {"t": "bin", "op": "-", "l": {"t": "filesize"}, "r": {"t": "filesize"}}, "r": I(v)}))
+        return out
+    nrange = 0
+    for lo in rvals:
+        for hi in rvals:
+            for (ln, le), (hn, he) in itertools.product(bound_variants(lo), bound_variants(hi)):
+                if ln == "ext" and hn == "ext" and lo != hi:
+                    continue                  # one external only
+                if tier == "quick" and (ln, hn) not in (("lit", "lit"), ("lit", "sum"), ("sum", "lit")) and r.random() < 0.8:
+                    continue
+                xv = lo if ln == "ext" else hi
+                shapes = [{"t": "sin", "s": "$_a", "lo": le, "hi": he},
+                          {"t": "cmp", "op": ">=", "l": {"t": "scountin", "s": "$_a", "lo": le, "hi": he}, "r": I(1)},
+                          {"t": "ofin", "q": "any", "set": list(cg.STRS), "lo": le, "hi": he},
+                          {"t": "forin", "q": "any", "var": "i0", "it": "range", "lo": le, "hi": he, "body": {"t": "sat", "s": "$_a", "x": {"t": "var", "name": "i0"}}}]
+                for a in (shapes if tier != "quick" else r.sample(shapes, 2)):
+                    txt = cg.show(a)[0]
+                    bufs = [b"#1#", b".#1#", b"..#1#", b".....#1#", b"", b"#1#...#1#"]
+                    groups.append({"src": cond.rule_text(txt), "bufs": bufs, "pre": cond.EXT_DEFS + ["cdefine 0 i ext_k %d" % xv]})
+                    metas.append((txt + "  [range bounds %s/%s]" % (ln, hn), a, dict(cond.EXT_ENV, ext_k={"ty": "i", "v": xv})))
+                    nrange += 1
+    res.cov["parts"]["c12_range_bound_twins"] = nrange
     records, owners = cond.make_records(res, "C12", groups, metas, wd, "c12_fold")
     judge_and_report(res, "C12", records, owners, lambda o: {"condition": o[0], "buf": o[1], "verdict": o[2], "matches": o[3]}, wd, "c12_fold")
     for o in owners[:2]:
@@ -159,9 +187,9 @@ def c12(res, tier, seed):
     # fast mode: the verdict under SCAN_FLAGS_FAST_MODE judged on the match lists of the normal scan
     fast_groups = [dict(g, flags=1 | 8 | 16) for g in groups]
     frecords, fowners = cond.make_records(res, "C12", fast_groups, metas, wd, "c12_fast")
-    normal_m = {(o[0], o[1]): rec["env"]["m"] for rec, o in zip(records, owners)}
+    normal_m = {(o[0], o[1]): rec["env"]["m"] for rec, o in zip(records, owners) if rec["kind"] == "cond"}
     for rec, o in zip(frecords, fowners):
-        if (o[0], o[1]) in normal_m:
+        if rec["kind"] == "cond" and (o[0], o[1]) in normal_m:
             rec["env"]["m"] = normal_m[(o[0], o[1])]
     judge_and_report(res, "C12", frecords, fowners, lambda o: {"condition": o[0] + " [fast mode]", "buf": o[1], "verdict": o[2], "matches_fast": o[3]}, wd, "c12_fast")
 
